@@ -56,6 +56,11 @@ fn main() {
             let r = runner::run_property(&p, tier, seed, lane.as_deref());
             std::process::exit(r.exit);
         }
+        "stackprobe" => {
+            let file = args.get(2).unwrap_or_else(|| usage());
+            std::panic::set_hook(Box::new(|_| {}));
+            std::process::exit(ldap3_verif::props::c11::stackprobe_main(file));
+        }
         "replay" => {
             let id = args.get(2).unwrap_or_else(|| usage());
             let file = args.get(3).unwrap_or_else(|| usage());
